@@ -26,9 +26,20 @@ func runLayoutGenerated(bin string, seed uint64) *RunReport {
 	g.W["plan"] = 5
 	g.BadBias = 6
 	sc.Config.Layout = []string{"", "legacy", "both", "nolock", "nested", "legacy+nested", "legacy"}[rng.Intn(7)]
+	g.W["show"], g.W["list"] = 8, 6
 	r := NewRun(bin, sc)
 	defer r.Close()
 	r.InitStore()
+	if rng.Chance(1, 2) {
+		// work products to attach: results carry a file URL that must not
+		// depend on how the project was reached
+		g.ResPct = 30
+		for _, f := range goodFiles[:4] {
+			st := Step{File: &FileOp{Path: f, Kind: "file", Content: "result " + f + "\n"}}
+			sc.Steps = append(sc.Steps, st)
+			r.ExecStep(st)
+		}
+	}
 	for i := 0; i < n; i++ {
 		st := g.Next(r.M)
 		if st.Cmd != nil {
